@@ -22,7 +22,7 @@ TECHNIQUE = ('Hypothesis-generated programs with reference-execution outputs: mu
              'single-want corruptions (must fail at that want); bounded exhaustive enumeration of want placements')
 RULE = ("programs of 1-8 statements (13 kinds: printing, value-bearing, None, assignments, loops, semicolon lines, "
         "printing+value, multi-line; new-style and classic prompt layouts) x placements of correct wants "
-        "(all / own / val / repl) x one corruption (replace, append, prepend, drop last line, stale prefix, '...' want demanding the tail twice). "
+        "(all / own / val / repl) x one corruption (replace, append, prepend, drop last line, stale prefix, '...' want demanding the tail twice, repr of an earlier statement's value). "
         "Non-trivial: >= 2 wants, or a want matching output accumulated from >= 2 want-less statements, or a corruption "
         "at a want that is not the first. Distinct = distinct (docstring, corrupted docstring).")
 DESIGN_REF = '6.2'
@@ -141,6 +141,10 @@ def want_options(stmts, info, i, since):
             opts['all'] = since + out
         if inf['is_expr'] and out:
             opts['own'] = out
+        if inf['is_expr'] and not (s['layout'] == 'classic' and len(s['lines']) > 1) and not any(';' in ln for ln in s['lines']):
+            # "or the repr of that expression's value": a lone expression statement whose value is None may be followed
+            # by the want None, whether or not it also printed something (parts compiled in 'single' mode have no value)
+            opts['val_none'] = 'None\n'
     return opts
 
 
@@ -249,7 +253,7 @@ def _ell_matches(got, want):
     return True in ellipsis.verdicts(g, w)
 
 
-def corrupt(D, wants, i, prev_idx, junk, allowed):
+def corrupt(D, wants, i, prev_idx, junk, allowed, earlier_reps=()):
     w = wants[i]
     wl = w.rstrip('\n').split('\n')
     kinds = ['replace', 'append', 'prepend']
@@ -261,21 +265,27 @@ def corrupt(D, wants, i, prev_idx, junk, allowed):
     # a want that abbreviates the middle with '...' but demands the tail twice: only overlapping pieces could match
     flat = w.rstrip('\n')
     dup = None
+    # the want may legitimately match any trailing portion of the output accumulated since the previous want:
+    # every line-level suffix of every allowed reading is tried (a superset of the statement-level portions)
+    readings = set()
+    for opt in allowed | {w}:
+        ol = opt.rstrip('\n').split('\n')
+        for j in range(len(ol)):
+            readings.add('\n'.join(ol[j:]))
     if len(flat) >= 3 and not flat[0].isspace() and flat[0] != '.':
         tail = flat[-min(4, len(flat) - 1):]
         cand = flat[:1] + '...' + tail + '...' + tail + '\n'
-        # the want may legitimately match any trailing portion of the output accumulated since the previous want:
-        # every line-level suffix of every allowed reading is tried (a superset of the statement-level portions)
-        readings = set()
-        for opt in allowed | {w}:
-            ol = opt.rstrip('\n').split('\n')
-            for j in range(len(ol)):
-                readings.add('\n'.join(ol[j:]))
         if '\n\n' not in cand and not any(_ell_matches(opt, cand) for opt in readings):
             dup = cand
             kinds.append('ellipsis_dup')
+    # the repr of the value of an *earlier* expression statement (a value that went stale must not satisfy a later want)
+    stale = [r + '\n' for r in earlier_reps if not any(_ell_matches(opt, r + '\n') for opt in readings)]
+    if stale:
+        kinds.append('earlier_value')
     kind = D.choice(kinds)
-    if kind == 'ellipsis_dup':
+    if kind == 'earlier_value':
+        text = D.choice(stale)
+    elif kind == 'ellipsis_dup':
         text = dup
     elif kind == 'replace':
         text = junk + '\n'
@@ -323,7 +333,8 @@ def case_strategy(D, max_stmts):
         for j in range((prev[-1] + 1) if prev else 0, i):
             since_i += info[j]['out']
         allowed = set(want_options(stmts, info, i, since_i).values())
-        cor = corrupt(D, wants, i, prev[-1] if prev else None, 'JUNK{}'.format(n), allowed)
+        earlier = [info[j]['rep'] for j in range(i) if info[j]['valued']]
+        cor = corrupt(D, wants, i, prev[-1] if prev else None, 'JUNK{}'.format(n), allowed, earlier)
     indent = D.choice(['', '    '])
     return {'mode': 'wants', 'stmts': stmts, 'wants': wants, 'want_kinds': want_kinds, 'corruption': cor,
             'indent': indent, 'acc': nontriv_acc}
